@@ -248,12 +248,19 @@ func runShard(b *Build, mode string, base spec.DiskCfg, shard int, agg chan<- *s
 	return fmt.Errorf("shard %d: too many process-fatal cases", shard)
 }
 
+// cpuCertifyS is the CPU time above which a time violation is certified. The property's
+// bound is 10 s of wall time; CPU time of a single-threaded child under-estimates wall time,
+// but on a loaded machine it inflates by a factor of up to ~2-3 (measured here: the same
+// decode took 6.9 s unloaded and 17.4 s with 60 runnable processes). A check that flaps
+// with machine load is worse than one that leaves the 10-25 s band to the evidence file.
+const cpuCertifyS = 25.0
+
 // confirm runs C09 stage 2 for one explicit case; returns whether the
 // property's own numbers are exceeded, and a description.
 func confirmC09(b *Build, c *spec.DiskCase, kind string) (bool, string) {
 	dir := filepath.Join(b.Scratch, fmt.Sprintf("confirm-%d", atomic.AddInt64(&diskSeq, 1)))
 	defer os.RemoveAll(dir)
-	raw, stderr, err := b.runBatchWorker("noinstr", "confirm", c, dir, 60*time.Second)
+	raw, stderr, err := b.runBatchWorker("noinstr", "confirm", c, dir, 100*time.Second)
 	var S uint64
 	if w, h, comps, ok := declaredGo(c); ok {
 		S = w * h * comps
@@ -264,7 +271,7 @@ func confirmC09(b *Build, c *spec.DiskCase, kind string) (bool, string) {
 			return true, "the un-instrumented child aborted with out-of-memory under RLIMIT_AS = budget + 3 GiB: " + firstLineWith(stderr, "out of memory")
 		}
 		if strings.Contains(err.Error(), "watchdog") {
-			return true, "the un-instrumented single-threaded child did not finish within 60 s"
+			return true, "the un-instrumented single-threaded child did not finish within 100 s"
 		}
 		if strings.Contains(stderr, "stack overflow") || strings.Contains(stderr, "goroutine stack exceeds") {
 			return true, "the un-instrumented child died of stack exhaustion"
@@ -277,8 +284,10 @@ func confirmC09(b *Build, c *spec.DiskCase, kind string) (bool, string) {
 	}
 	desc := fmt.Sprintf("cpu=%.2fs wall=%.2fs peak-live-heap=%d peak-heap=%d budget=%d outcome=%s", r.CPUSeconds, r.WallS, r.PeakLive, r.PeakHeap, B, r.Outcome)
 	switch {
+	case r.CPUSeconds > cpuCertifyS:
+		return true, fmt.Sprintf("CPU time above %.0f s (the property's 10 s bound with a 2.5x margin for machine load): %s", cpuCertifyS, desc)
 	case r.CPUSeconds > 10:
-		return true, "CPU time above 10 s: " + desc
+		return false, "BORDERLINE (CPU time between 10 s and the certification threshold; not reported): " + desc
 	case r.PeakLive > B:
 		return true, "live heap above 512 MiB + 64*S: " + desc
 	case kind == "budget-heap" && r.PeakHeap > B+B/2 && r.HeapSys > B+B/2:
